@@ -10,11 +10,16 @@ correspondence : real hierarchies (every constructor, AIR with R != P^T, hand-bu
                  intermediate quantity) with solve(b, x0, maxiter=1|k, cycle, cycles_per_level),
                  aspreconditioner(cycle) @ v, x0 + M (b - A x0) on further vectors, and the recorded order of
                  smoother / coarse-solver calls (exact).
+                 Gauss-Seidel / SOR / Jacobi closures on real CSR levels are in addition compared (1e-10) with the Q that
+                 the Lean kernel models of C09 (pygs / pyjac, proved linear iterations) produce column by column.
 search         : an independent NumPy recursion from the same pieces; exact solution is a fixed point; k one-cycle
-                 calls == one k-cycle call; aspreconditioner is additive/homogeneous, equals the cycle from a zero
-                 guess and follows the requested cycle type across a history of requests (V, W, F on one object, also
-                 through solve(accel=...)); repeated calls give identical results; the smoother installed on level i
-                 is the requested method with the requested options; number of coarse solves per cycle.
+                 calls == one k-cycle call (bitwise in practice); aspreconditioner is additive/homogeneous, equals the
+                 cycle from a zero guess and follows the requested cycle type across a history of requests (V, W, F in
+                 random order on ONE object, directly and through solve(accel=...), older operators re-applied after
+                 newer ones were created); identical calls give identical results, b and x0 are not modified; the
+                 smoother installed on level i is the requested method with the requested options (systematic option
+                 grid of every linear family, both sides, per-level lists of all length combinations, CSR / AIR / BSR
+                 base hierarchies, via the constructors and via change_smoothers); order and number of coarse solves.
 """
 import hashlib
 import json
